@@ -299,7 +299,7 @@ func indexHeader(
 				return err
 			}
 		case records.STFSRecordActionDelete:
-			if _, err := metadataPersister.DeleteHeader(context.Background(), hdr.Name, record, block); err != nil {
+			if _, err := metadataPersister.DeleteHeader(context.Background(), hdr.Name, hdr.Linkname, record, block); err != nil {
 				return err
 			}
 		case records.STFSRecordActionUpdate:
